@@ -17,14 +17,14 @@ Ltac bridge := intros; cbv beta delta [
   gen_iv_n_events gen_iv_start_slot gen_iv_end_slot gen_iv_edge_shape gen_iv_n_values gen_iv_default_slot gen_iv_value_slot
   gen_iv_array_trailing_default gen_iv_array_shape gen_iv_drop_first gen_iv_drop_count gen_iv_keep gen_iv_return_shape
   gen_ta_diff gen_ta_shape gen_td_lo gen_td_hi gen_td_shape gen_ec_lo gen_ec_hi gen_ec_shape gen_gd_lo gen_gd_hi gen_gd_stop
-  gen_gd_shape gen_go_offsets np_insert_front gen_go_start_bad gen_go_start_negative gen_go_stop_ok gen_go_start gen_go_stop
+  gen_gd_shape gen_af_shape gen_go_offsets np_insert_front gen_go_start_bad gen_go_start_negative gen_go_stop_ok gen_go_start gen_go_stop
   gen_go_shape
   m_bg_empty_events m_bg_empty_values m_bg_is_gap m_bg_gap_pos m_bg_gap_value m_bg_gap_shape m_bg_fits m_bg_ends_at_size
   m_bg_tail_at m_bg_tail_before m_bg_tail_values_before m_bg_tail_shape m_bg_needs_prefix m_bg_prefix_pos m_bg_prefix_event
   m_bg_prefix_value m_bg_prefix_shape m_iv_assert_nonempty m_iv_assert_ordered m_iv_has_prefix m_iv_prefix m_iv_has_postfix
   m_iv_postfix m_iv_n_events m_iv_start_slot m_iv_end_slot m_iv_edge_shape m_iv_n_pairs m_iv_default_slot m_iv_value_slot
   m_iv_array_trailing_default m_iv_array_shape m_iv_drop_first m_iv_drop_count m_iv_keep m_iv_return_shape m_xor m_ta_shape
-  m_slice_lo m_slice_hi m_td_shape m_ec_shape m_gd_shape m_go_start_bad m_go_start_negative m_go_stop_ok m_go_shift m_go_shape
+  m_slice_lo m_slice_hi m_af_shape m_td_shape m_ec_shape m_gd_shape m_go_start_bad m_go_start_negative m_go_stop_ok m_go_shift m_go_shape
   offsets] zeta;
   first [reflexivity | ring | lia].
 
@@ -82,6 +82,7 @@ Lemma b_gd : forall start size, gen_gd_lo start (gen_gd_stop start size) = m_sli
                               /\ gen_gd_hi start (gen_gd_stop start size) = m_slice_hi start size.
 Proof. split; bridge. Qed.
 Lemma b_gd_shape : gen_gd_shape = m_gd_shape. Proof. bridge. Qed.
+Lemma b_af_shape : gen_af_shape = m_af_shape. Proof. bridge. Qed.
 (* global_offset.py *)
 Lemma b_go_offsets : forall sizes, gen_go_offsets sizes = offsets sizes. Proof. bridge. Qed.
 Lemma b_go_start_bad : forall s n, gen_go_start_bad s n = m_go_start_bad s n. Proof. bridge. Qed.
